@@ -120,3 +120,9 @@ func (k BankKeeper) SendCoinsFromModuleToModule(
 
 	return nil
 }
+
+// BlockedAddr implements the bank behavior expected by the fee action. The mock does not
+// block any address.
+func (k BankKeeper) BlockedAddr(_ sdk.AccAddress) bool {
+	return false
+}
